@@ -55,6 +55,7 @@ type Exec struct {
 	loops    map[*ssa.BasicBlock]*loopInfo
 	loopList []*loopInfo
 	rets     []retInfo
+	defs     map[string]string // alias constant -> the term it was defined as (lock keys are compared on definitions)
 	inlineDepth int // > 0 while the body of an uncontracted loop-free helper is executed in place
 	safety   bool
 	nsafe    map[string]int
